@@ -140,6 +140,32 @@ def gen(pid, names, files):
     return out
 
 
+def run_union(m, tier, file_props):
+    """run every check anchored at the mutant's file; killed if any reports it"""
+    tmp = tempfile.mkdtemp(prefix="qv-")
+    try:
+        shutil.copytree("/repo/include", os.path.join(tmp, "include"))
+        p = os.path.join(tmp, "include", "quill", m["file"])
+        lines = open(p).read().split("\n")
+        assert lines[m["line"] - 1] == m["old"]
+        lines[m["line"] - 1] = m["new"]
+        open(p, "w").write("\n".join(lines))
+        env = dict(os.environ, QV_SRC=os.path.join(tmp, "include"), QV_OUT=os.path.join(tmp, "out"))
+        killers, rcs = [], []
+        for pid in file_props:
+            r = subprocess.run([sys.executable, os.path.join(VERIF, "engine", "qcheck.py"), pid, "--tier", tier], capture_output=True, text=True, env=env, cwd=VERIF)
+            rcs.append(r.returncode)
+            if r.returncode == 1:
+                rules = sorted(set(l.split()[0] for l in r.stdout.splitlines() if l.startswith("  C") and " violated at " in l))
+                killers.append("%s(%s)" % (pid, ",".join(rules)[:60]))
+            if r.returncode == 2 and "does not parse" in r.stdout:
+                return m, 2, [], "does not parse"
+        rc = 1 if killers else (2 if all(x == 2 for x in rcs) else (0 if 2 not in rcs else 3))
+        return m, rc, killers, ""
+    finally:
+        shutil.rmtree(tmp, ignore_errors=True)
+
+
 def run(m, tier):
     tmp = tempfile.mkdtemp(prefix="qv-")
     try:
@@ -162,6 +188,9 @@ def main():
     ap.add_argument("--ids", required=True); ap.add_argument("--n", type=int, default=40); ap.add_argument("--seed", type=int, default=1)
     ap.add_argument("--jobs", type=int, default=8); ap.add_argument("--list", action="store_true"); ap.add_argument("--tier", default="quick")
     ap.add_argument("--kinds", default="")
+    ap.add_argument("--file", default="", help="only mutants in files whose path contains this text")
+    ap.add_argument("--fns", default="", help="extra function names (comma separated) added to every property's targets")
+    ap.add_argument("--union", action="store_true", help="run every check anchored at the mutant's file; a mutant survives only if none reports it")
     a = ap.parse_args()
     props = [json.loads(l) for l in open(os.path.join(VERIF, "properties.jsonl"))]
     ids = a.ids.split(",")
@@ -169,7 +198,8 @@ def main():
     todo = []
     for pid in ids:
         names, files = tg[pid]
-        ms = gen(pid, names, files)
+        names = sorted(set(names) | set(x for x in a.fns.split(",") if x))
+        ms = [m for m in gen(pid, names, files) if a.file in m["file"]]
         if a.kinds:
             ms = [m for m in ms if m["kind"] in a.kinds.split(",")]
         fns = sorted(set((m["file"], m["fn"]) for m in ms))
@@ -181,6 +211,39 @@ def main():
             print("%s %s:%d [%s] %s  ->  %s" % (m["pid"], m["file"], m["line"], m["kind"], m["old"].strip(), m["new"].strip()))
         return 0
     stats = {}
+    if a.union:
+        fmap = {}
+        for d in props:
+            for f in d["anchors"]["files"]:
+                fmap.setdefault(os.path.relpath(os.path.join("/repo", f), INC), []).append(d["id"])
+        def props_of(rel):
+            out = list(fmap.get(rel, []))
+            for k, v in fmap.items():
+                if k.endswith("/") or (k + "/") == rel[:len(k) + 1]:
+                    if rel.startswith(k.rstrip("/") + "/"):
+                        out += v
+            return sorted(set(out))
+        seen = set()
+        uniq = []
+        for m in todo:
+            key = (m["file"], m["line"], m["new"])
+            if key not in seen:
+                seen.add(key)
+                uniq.append(m)
+        with ThreadPoolExecutor(a.jobs) as ex:
+            for m, rc, killers, last in ex.map(lambda m: run_union(m, a.tier, props_of(m["file"])), uniq):
+                st = stats.setdefault(m["file"], dict(killed=0, survived=0, broken=0))
+                if rc == 1:
+                    st["killed"] += 1
+                    print("killed   %s:%d [%s] by %s" % (m["file"], m["line"], m["kind"], " ".join(killers)[:160]))
+                elif rc in (0, 3):
+                    st["survived"] += 1
+                    print("SURVIVOR %s %s:%d (%s) [%s]%s\n    - %s\n    + %s" % ("ALL", m["file"], m["line"], m["fn"], m["kind"], " (some checks exit 2)" if rc == 3 else "", m["old"].strip(), m["new"].strip()))
+                else:
+                    st["broken"] += 1
+        for f, st in sorted(stats.items()):
+            print("%s: killed %d, survived %d, not parsed / analysis broken %d" % (f, st["killed"], st["survived"], st["broken"]))
+        return 0
     with ThreadPoolExecutor(a.jobs) as ex:
         for m, rc, rules, last in ex.map(lambda m: run(m, a.tier), todo):
             st = stats.setdefault(m["pid"], dict(killed=0, survived=0, broken=0))
